@@ -12,6 +12,7 @@ import (
 	"github.com/postalsys/muti-metroo/internal/identity"
 	"github.com/postalsys/muti-metroo/internal/logging"
 	"github.com/postalsys/muti-metroo/internal/protocol"
+	"github.com/postalsys/muti-metroo/internal/verifhook"
 )
 
 // formatIPAddress returns the address type and byte representation for the given IP.
@@ -421,6 +422,7 @@ func (h *Handler) readLoop(assoc *Association) {
 
 		// Encrypt payload
 		plaintext := buf[:n]
+		verifhook.Point("udp.read_before_seal", assoc.StreamID)
 		ciphertext, err := assoc.Encrypt(plaintext)
 		if err != nil {
 			continue
